@@ -596,8 +596,8 @@ func genVulns(rt *rapid.T, w *World, conc bool) []VulnSpec {
 func genOpts(rt *rapid.T, w *World, maxUpgrades []int, plain, conc bool) Opts {
 	o := Opts{DevDeps: true, MaxDepth: -1}
 	o.Default = draw(rt, "level.default", "major", "major", "major", "major", "minor", "minor", "patch", "patch", "none")
-	if conc && chance(rt, "level.conc", 1, 2) {
-		o.Default = "major"
+	if conc && chance(rt, "level.conc", 3, 4) {
+		o.Default = "major" // C16 is about interfering attempts: restrictive levels leave none
 	}
 	// per-package levels: mostly on packages that matter (direct requirements, vulnerable ones)
 	var cands []string
@@ -621,6 +621,9 @@ func genOpts(rt *rapid.T, w *World, maxUpgrades []int, plain, conc bool) Opts {
 	}
 	sort.Strings(cands)
 	nl := draw(rt, "level.n", 0, 0, 1, 1, 2)
+	if conc && chance(rt, "level.nconc", 1, 2) {
+		nl = 0
+	}
 	for k := 0; k < nl && len(cands) > 0; k++ {
 		p := cands[rapid.IntRange(0, len(cands)-1).Draw(rt, fmt.Sprintf("level.%d.pkg", k))]
 		dupe := false
@@ -641,14 +644,14 @@ func genOpts(rt *rapid.T, w *World, maxUpgrades []int, plain, conc bool) Opts {
 		o.MavenManagement = chance(rt, "mavenmanagement", 1, 4)
 	}
 	if plain && conc {
-		o.MinSeverity = draw(rt, "minseverity", 0.0, 0.0, 0.0, 5.0)
+		o.MinSeverity = draw(rt, "minseverity", 0.0, 0.0, 5.0)
 	}
 	if plain {
 		if conc && len(w.Vulns) > 1 && chance(rt, "hasexplicit", 2, 5) {
 			// "only fix these": explicit list in C16 worlds; now and then an explicit record
 			// carries the id of a non-listed record as an OSV alias
 			for i, v := range w.Vulns {
-				if i == 0 || chance(rt, fmt.Sprintf("explicit%d", i), 1, 2) {
+				if i == 0 || chance(rt, fmt.Sprintf("explicit%d", i), 3, 4) {
 					o.Explicit = append(o.Explicit, v.ID)
 				}
 			}
@@ -759,7 +762,7 @@ func genWorld(rt *rapid.T, kinds []string, maxUpgrades []int, plain, conc bool) 
 	}
 	if conc && (motif == 0 || motif == 2 || motif == 4 || motif == 6) && chance(rt, "motif.conc", 1, 2) {
 		// C16: favour the shapes with several patch attempts that interfere
-		motif = draw(rt, "motif.which", 1, 1, 3, 3, 3, 5)
+		motif = draw(rt, "motif.which", 1, 1, 1, 3, 3, 3, 5)
 		if w.Sys == "maven" && motif == 5 {
 			motif = 3
 		}
